@@ -57,8 +57,10 @@ def extra(uni, tier, seed):
     # the nodes handed to __trans_nodes are the hoisted order
     tr = extract.module("teaal/trans/hifiber.py").func("HiFiber.__translate")
     tsrc = ast.unparse(tr)
-    ok = "nodes = flow_graph.get_sorted()" in tsrc and "self.__trans_nodes(nodes)" in tsrc
-    out.append(Extra("structural/__translate translates flow_graph.get_sorted()", ok, ""))
+    uses = [n_ for n_ in ast.walk(tr) if isinstance(n_, ast.Name) and n_.id == "nodes"]
+    ok = "nodes = flow_graph.get_sorted()" in tsrc and "self.__trans_nodes(nodes)" in tsrc and len(uses) == 2
+    out.append(Extra("structural/__translate hands flow_graph.get_sorted() to __trans_nodes untouched (the list is bound once and "
+                     "used once)", ok, "%d occurrences of `nodes`" % len(uses)))
     return out
 
 
@@ -126,9 +128,16 @@ def _def_use(tier, seed):
     for path in sorted(glob.glob(REPO + "/tests/integration/*.yaml")):
         fam.append((path.rsplit("/", 1)[1], open(path).read()))
     n, fails = 0, []
+    # metrics mode as well (header / footer nodes of eager bindings are placed by the same machinery): the repository's
+    # accelerator specifications and their single-point binding-style variants
+    for name, y in common.accelerator_variants(tier):
+        fam.append(("[metrics] " + name, y))
     for name, y in fam:
         try:
-            text = str(HiFiber(Einsum.from_str(y), Mapping.from_str(y)))
+            if name.startswith("[metrics] "):
+                text = str(common.compile_full(y))
+            else:
+                text = str(HiFiber(Einsum.from_str(y), Mapping.from_str(y)))
             user, _ = C06.user_names(y)
         except Exception:      # noqa
             continue
@@ -152,6 +161,7 @@ def bounded(uni, tier, seed):
             "rule": "every Einsum of every tests/integration/*.yaml: real FlowGraph with and without hoisting - order "
                     "topological w.r.t. the real graph, loop brackets nested in loop order, same node multiset; the emitted "
                     "statements of the placement family (props/hoist_family.py, every level-respecting loop order) "
-                    "and of the integration specs read only names bound earlier on every path; "
+                    "of the integration specs and (metrics mode) of the repository's accelerator specifications with their "
+                    "binding-style variants read only names bound earlier on every path; "
                     "thorough adds random small DAGs fed to the real __hoist under the sidecar contract (bounded)",
             "samples": samples}
